@@ -96,6 +96,9 @@ type ClientSc struct {
 	// DialCtxCancelled: the context given to Dial is cancelled as soon as Dial has returned (the usual
 	// "ctx, cancel := WithTimeout(...); defer cancel()" around a Dial): later re-dials must not depend on it
 	DialCtxCancelled bool `json:"dial_ctx_cancelled,omitempty"`
+	// NestMw: the client has a middleware that, for the first few calls, issues a request of its own on the same
+	// client from another goroutine, with the context the chain handed it, while the original call proceeds
+	NestMw bool `json:"nest_mw,omitempty"`
 }
 
 // callRec is the recorded history of one call.
@@ -129,6 +132,8 @@ type clientWorld struct {
 	seq           int
 	closeReturned bool
 	closeCalled   bool
+	baseCtx       context.Context // consumed by the next doCall
+	nested        int
 	closeSeq      int // value of seq when Close was called (0: never)
 	closePanicked bool
 	cancels       []context.CancelFunc
@@ -393,6 +398,9 @@ func (w *clientWorld) doCall(caller, idx int, cs CallSc, suffix bool) *callRec {
 	rec.startSeq = w.seq
 	rec.startedAfterClose = w.closeReturned
 	ctx := context.Background()
+	if w.baseCtx != nil {
+		ctx, w.baseCtx = w.baseCtx, nil // (a nested call made on behalf of a middleware: it inherits that context)
+	}
 	var observed *observeCtx
 	switch cs.Ctx {
 	case "cancel":
@@ -564,6 +572,25 @@ func (w *clientWorld) start(opts ...kmipclient.Option) {
 		}
 		if sc.Enforce {
 			o = append(o, kmipclient.EnforceVersion(kmip.V1_4))
+		}
+		if sc.NestMw {
+			o = append(o, kmipclient.WithMiddlewares(func(next kmipclient.Next, ctx context.Context, msg *kmip.RequestMessage) (*kmip.ResponseMessage, error) {
+				own := len(msg.BatchItem) > 0
+				if own {
+					if p, ok := msg.BatchItem[0].RequestPayload.(*payloads.ActivateRequestPayload); !ok || strings.HasPrefix(p.UniqueIdentifier, "tok-c8") {
+						own = false // (not one of the scripted calls, or itself a nested call)
+					}
+				}
+				if own && w.nested < 3 && w.client != nil {
+					k := w.nested
+					w.nested++
+					w.s.Spawn("nested-call", func() {
+						w.baseCtx = ctx
+						w.doCall(80+k, 0, CallSc{Kind: "request"}, false)
+					})
+				}
+				return next(ctx, msg)
+			}))
 		}
 		o = append(o, opts...)
 		dialCtx, cancelDial := context.WithCancel(context.Background())
